@@ -528,6 +528,17 @@ class Interp:
             self.once_done.add(key)
         txt = self.value(a[0])
         if getattr(self, "print_hook", False):
+            import re as _re
+
+            def _var(m):
+                v = self.vars.get(m.group(1))
+                if v is None or v == [] or v == {}:
+                    return "<UNSET>"
+                return str(v)
+
+            txt = _re.sub(r"\$\.variables\.([A-Za-z0-9_]+)", _var, txt)
+            if "<UNSET>" in txt:
+                txt = "<UNSET>" + txt
             txt = txt.replace("$.csvpath.count_scans", str(self.scan_count)).replace("$.csvpath.line_number", str(self.i))
         self.prints.append(txt)
         return self.neutral()
